@@ -22,7 +22,7 @@ type c01 struct{}
 func (c01) ID() string    { return "C01" }
 func (c01) Level() string { return "exploration" }
 func (c01) Rule() string {
-	return "(a) every attribute path of the schema (read from /repo/schema/compose-spec.json at run time) x 15 YAML node kinds placed at that path, as a single file, as a second document, as an override of the valid witness, as the base under a valid override, in an extended base and in an included file; (b) the single-file matrix under each of 10 load options flipped alone and all together (thorough: more option sets); (c) YAML alias/anchor cycles and merge keys, extends, include and depends_on cycles; (d) every {present, absent, directory-in-place} state vector of the files referenced by 5 scenarios (override, extends chain, nested include with env files, env_file/label_file, cli .env); (e) every distance-1 byte edit (delete, insert/replace by 18 significant bytes) of 6 seed documents. Oracle: exactly one of project/error, no panic, no process death, no hang; cycles and missing required files are errors naming the file. distinct = distinct (position, kind, route, options) outcomes"
+	return "(a) every attribute path of the schema (read from /repo/schema/compose-spec.json at run time) x 15 YAML node kinds placed at that path, as a single file, as a second document, as an override of the valid witness, as the base under a valid override, in an extended base and in an included file; (b) the single-file matrix under each of 10 load options flipped alone and all together (thorough: more option sets); (c) YAML alias/anchor cycles and merge keys, extends, include (every spelling of every edge incl. multi-path entries) and depends_on cycles; (d) every {present, absent, directory-in-place} state vector of the files referenced by 5 scenarios (override, extends chain, nested include with env files, env_file/label_file, cli .env); (e) every distance-1 byte edit (delete, insert/replace by 18 significant bytes) of 6 seed documents. Oracle: exactly one of project/error, no panic, no process death, no hang; cycles and missing required files are errors naming the file. distinct = distinct (position, kind, route, options) outcomes"
 }
 func (c01) Assumptions() []string {
 	return []string{
@@ -413,6 +413,44 @@ func c01refcycles(c *core.Ctx) {
 		"include-1": {"compose.yaml": "include:\n  - ./compose.yaml\nservices:\n  m: {image: m}\n"},
 		"include-2": {"compose.yaml": "include:\n  - ./a.yaml\nservices:\n  m: {image: m}\n", "a.yaml": "include:\n  - ./compose.yaml\nservices:\n  a: {image: a}\n"},
 		"include-3": {"compose.yaml": "include:\n  - ./a.yaml\nservices:\n  m: {image: m}\n", "a.yaml": "include:\n  - path: ./sub/b.yaml\nservices:\n  a: {image: a}\n", "sub/b.yaml": "include:\n  - ../a.yaml\nservices:\n  b: {image: b}\n"},
+	}
+	// every spelling of every edge of an include cycle of length 1..3: short, long, and a multi-path entry
+	// (first path + override files) with the cycle-closing file in first or in second position
+	forms := []string{"short", "long", "multi-first", "multi-second"}
+	names := []string{"compose.yaml", "a.yaml", "b.yaml"}
+	for n := 1; n <= 3; n++ {
+		tot := 1
+		for i := 0; i < n; i++ {
+			tot *= len(forms)
+		}
+		for code := 0; code < tot; code++ {
+			files := map[string]string{}
+			x := code
+			var used []string
+			for i := 0; i < n; i++ {
+				form := forms[x%len(forms)]
+				x /= len(forms)
+				used = append(used, form)
+				target := "./" + names[(i+1)%n]
+				benign := fmt.Sprintf("./benign%d.yaml", i)
+				var entry string
+				switch form {
+				case "short":
+					entry = "  - " + target + "\n"
+				case "long":
+					entry = "  - path: " + target + "\n"
+				case "multi-first":
+					entry = "  - path: [" + target + ", " + benign + "]\n"
+					files[benign[2:]] = fmt.Sprintf("services:\n  s%d: {hostname: h}\n", (i+1)%n)
+				case "multi-second":
+					entry = "  - path: [" + benign + ", " + target + "]\n"
+					files[benign[2:]] = fmt.Sprintf("services:\n  x%d: {image: x}\n", i)
+				}
+				files[names[i]] = "include:\n" + entry + fmt.Sprintf("services:\n  s%d: {image: i}\n", i)
+			}
+			k := fmt.Sprintf("n%d/%s", n, strings.Join(used, "+"))
+			inc[k] = files
+		}
 	}
 	for _, k := range sortedKeys(inc) {
 		k := k
